@@ -20,6 +20,9 @@ ODD = [
     "5 de marzo de 2021", "le 2 mars 2015 à 10h30", "2 марта 2015 г.", "٣ مارس ٢٠١٥", "2015年3月2日", "4 décembre 2015", "mar 3 mars",
     # numbers
     "1000000000", "-1000000000", "1000000000123", "12", "0",
+    # redundant or displaced fields (a number first taken for one part and then displaced by a later token)
+    "10 11 12 2013", "12/13/14 2015", "July 4 76 1976", "32 January 2015", "2015 2016", "March April 2015", "Monday Tuesday", "10:30 11:30",
+    "15 15 March 2015", "5 6 7 8",
     # garbage
     "", "(", "zzzz qqqq", "\x00",
 ]
